@@ -131,6 +131,18 @@ CHECKS.update({
     ),
 })
 
+CHECKS.update({
+    'C14': dict(
+        script='checks/c14.py', category='model_checking', design='DESIGN.md §4 C14',
+        text=('SystemClockLoop::loop() on the real IR with harness reference/backup clocks whose readiness and responses are '
+              'solver variables: one-step obligations from an arbitrary state of the four-state machine (status and backup '
+              'configuration are a case split; periods, timeout, timers, 64-bit millis and the clock state symbolic) give the '
+              'contract of every transition (apply valid response, never touch time otherwise, back-off rule, retry only after '
+              'the period); a k-step BMC from the initial state with symbolic gaps cross-checks reachability and bounded liveness.'),
+        technique='symbolic execution of clang LLVM IR (llsym) + SMT: one-step inductive checks + k-step BMC with nondeterministic environment stubs',
+    ),
+})
+
 NOT_APPLICABLE = {
     'C19': ('the generators are sampling loops around pytz/dateutil tzinfo objects backed by binary tz files and '
             'C-implemented datetime; neither CrossHair nor our symbolic executor can make those symbolic, and a '
